@@ -180,7 +180,7 @@ func main() {
 		}
 		return
 	}
-	if name == "sim-random" || name == "sim-adversary" || name == "sim-pause" || name == "sim-pause-past" || name == "sim-timeouts" {
+	if name == "sim-random" || name == "sim-adversary" || name == "sim-pause" || name == "sim-pause-past" || name == "sim-timeouts" || name == "sim-roleloss" {
 		if name == "sim-pause-past" {
 			// the simulated workflow clock starts in the PAST of the wall clock (the other suites: in its future), so that code which
 			// consults the wall clock instead of the workflow clock errs in the other direction
@@ -192,6 +192,8 @@ func main() {
 			feat.Stale, feat.Adversary, feat.Handles, feat.TwoTimeouts = true, true, true, true
 		case "sim-pause-past", "sim-pause": // error counting: counts configured almost everywhere, the same error over and over, no re-entrancy
 			feat.ForcePause, feat.ErrBias, feat.BadOutcomes, feat.Nested, feat.TimeoutHeavy, feat.Faults = true, 700, 450, false, true, 40
+		case "sim-roleloss": // hooks and delete functions that fail while their process loses the role; acknowledgements that do not look at the context
+			feat.LostInFn, feat.Nested, feat.BadOutcomes = true, false, 350
 		case "sim-timeouts": // timers: mostly timeout statuses, clock moved around expiry, no re-entrancy
 			feat.TimeoutHeavy, feat.Nested, feat.BadOutcomes = true, false, 200
 		}
